@@ -36,36 +36,58 @@ def o1(tier):
     nseq = 0
     maxq = 0
     hp = Harness(ob, persistent=True)
-    for seq in list(sequences(K)) + [s_ for s_ in sequences(K, 'CRH') if 'H' in s_ and s_[0] != 'H']:
+    # a restart with a smaller retention than the number of stored snapshots needs two snapshots before the restart and a step after it
+    extra = [tuple('CCHC'), tuple('CCHR')] + ([tuple('CCCHC'), tuple('CCCHR')] if tier != 'quick' else [])
+    seqs = list(sequences(K)) + [s_ for s_ in sequences(K, 'CRH') if 'H' in s_ and s_[0] != 'H']
+    seqs += [x for x in extra if x not in [tuple(y) for y in seqs]]
+    for seq in seqs:
         nseq += 1
         hh = hp if 'H' in seq else h
         ob.eng = hh.eng
         h_ = hh
-        states = h_.start(r, [z3.ULE(r, RMAX)])
+        states = [(st0, m0, ref0, r) for st0, m0, ref0 in h_.start(r, [z3.ULE(r, RMAX)])]
         for i, step in enumerate(seq):
             nxt = []
-            for st, mgr, ref in states:
+            for st, mgr, ref, rc in states:
                 if step == 'H':
-                    # restart: a fresh manager over the same (persistent) storage; the applied timestamps are not persisted
-                    nxt.append((st, h_.fresh_manager(st, r), [dict(epoch=x['epoch'], cid=x['cid'], ts=z3.BitVecVal(0, 64)) for x in ref]))
+                    # restart: a fresh manager over the same (persistent) storage, possibly configured with ANOTHER retention count; the applied timestamps are not
+                    # persisted.  The reference keeps the whole list: the next step trims it from the front (oldest first) down to the new retention.
+                    r2 = z3.BitVec(f'retention_after_restart{i}', 64)
+                    st = st.clone()
+                    st.pc.append(z3.ULE(r2, RMAX))
+                    nxt.append((st, h_.fresh_manager(st, r2), [dict(epoch=x['epoch'], cid=x['cid'], ts=z3.BitVecVal(0, 64), hydrated=True) for x in ref], r2))
                     continue
                 if step == 'C':
                     e, t, c = z3.BitVec(f'e{i}', 64), z3.BitVec(f't{i}', 64), cid(i)
                     for p in h_.create(st, mgr, GID, e, c, t):
                         total += 1
                         ob.require(vname(p.ret) == 'Ok', 'O1/create-fails', 'create_snapshot fails although the storage accepted the snapshot', p)
-                        ref2 = h_.ref_create(p.st, ref, r, e, c, t)
+                        ref2 = h_.ref_create(p.st, ref, rc, e, c, t)
+                        if ref2 is not None:
+                            ref2 = [dict(x, hydrated=False) for x in ref2]
                         if not ob.require(ref2 is not None, 'O1/retention-undecided', 'create_snapshot does not compare the queue length with the retention count', p):
                             continue
                         if h_.compare(p.st, mgr, GID, ref2, 'O1/create', f'after step {i + 1} of {"".join(seq)}'):
-                            ob.prove(p.st.pc, z3.ULE(z3.BitVecVal(len(ref2), 64), r), 'O1/bound', 'more snapshots than the retention count are kept')
+                            ob.prove(p.st.pc, z3.ULE(z3.BitVecVal(len(ref2), 64), rc), 'O1/bound', 'more snapshots than the retention count are kept')
                         maxq = max(maxq, len(ref2))
-                        nxt.append((p.st, mgr, ref2))
+                        nxt.append((p.st, mgr, ref2, rc))
                 else:
                     e = z3.BitVec(f'target{i}', 64)
                     for p in h_.rollback(st, mgr, GID, e):
                         total += 1
-                        ref2, found = h_.ref_rollback(p.st, ref, e)
+                        # a restarted manager first trims what it re-loaded to its retention count, oldest first
+                        ref1 = ref
+                        while ref1 is not None and any(x.get('hydrated') for x in ref1):
+                            d = h_.decide(p.st, z3.UGT(z3.BitVecVal(len(ref1), 64), rc))
+                            if d is None:
+                                ref1 = None
+                            elif d:
+                                ref1 = ref1[1:]
+                            else:
+                                ref1 = [dict(x, hydrated=False) for x in ref1]
+                        if not ob.require(ref1 is not None, 'O1/hydration-retention-undecided', 'a restarted manager does not compare what it re-loaded with its retention count', p):
+                            continue
+                        ref2, found = h_.ref_rollback(p.st, ref1, e)
                         if not ob.require(ref2 is not None, 'O1/rollback-undecided', 'rollback_to_epoch does not decide which snapshot matches the target epoch', p):
                             continue
                         ob.require((vname(p.ret) == 'Ok') == found, 'O1/rollback-result', f'rollback_to_epoch returns {vname(p.ret)} but a snapshot for the target epoch was {"" if found else "not "}tracked', p)
@@ -74,7 +96,7 @@ def o1(tier):
                             log = p.st.ext.get('log', [])
                             rb = [x for x in log if x[0].startswith('rollback')]
                             ob.require(len(rb) >= 1 and rb[-1][0] == 'rollback', 'O1/rollback-not-performed', 'the storage rollback was not performed on the tracked snapshot', p)
-                        nxt.append((p.st, mgr, ref2))
+                        nxt.append((p.st, mgr, ref2, rc))
             states = nxt
     ob.require(maxq >= min(K, RMAX) and total > 20, 'O1/vacuity', f'max queue {maxq}, transitions {total}')
     ob.r.bounds = {'steps per sequence': K, 'sequences': nseq, 'retention': f'0..{RMAX} (symbolic)', 'epochs / timestamps': 'all u64', 'commit ids': '248 symbolic bits + 8 distinguishing bits',
